@@ -526,6 +526,9 @@ func main() {
 	flag.Parse()
 	seed := int64(tl.EnvInt("VERIF_SEED", 1))
 	sum := tl.NewSummary("c11", *mode, seed)
+	if *mode == "cases" {
+		sum.Mode = "replay" // TLC-enumerated cases executed on the implementation
+	}
 	switch *mode {
 	case "cases":
 		runCases(*in, *scheme, sum)
